@@ -65,6 +65,7 @@ class Doc:
         self.defs_at = collections.defaultdict(list)      # 0-based line -> function / assigned names
         self.fixtures = []                                 # (name, func name, def line0)
         self.yield_lines = set()
+        self.own_yields = collections.defaultdict(set)     # fixture name / function name -> 0-based lines of its OWN yields
         self.params_at = collections.defaultdict(list)
         self.end_line_of = {}                              # 0-based definition line -> 0-based last line
         for node in ast.walk(tree):
@@ -77,6 +78,17 @@ class Doc:
                     for d in decs:
                         alias = alias or extract.fixture_name_from_decorator(d)
                     self.fixtures.append((alias or node.name, node.name, node.lineno - 1))
+                    ys = set()
+                    todo = list(node.body)
+                    while todo:
+                        n = todo.pop()
+                        if isinstance(n, (ast.FunctionDef, ast.AsyncFunctionDef, ast.ClassDef, ast.Lambda)):
+                            continue                       # a yield in there belongs to the nested scope
+                        if isinstance(n, (ast.Yield, ast.YieldFrom)):
+                            ys.add(n.lineno - 1)
+                        todo.extend(ast.iter_child_nodes(n))
+                    self.own_yields[alias or node.name] |= ys
+                    self.own_yields[node.name] |= ys
                 a = node.args
                 for x in list(a.posonlyargs) + list(a.args) + list(a.kwonlyargs) + ([a.vararg] if a.vararg else []) + ([a.kwarg] if a.kwarg else []):
                     self.params_at[x.lineno - 1].append(x.arg)
@@ -195,7 +207,8 @@ class Collector:
         d = self.docs[self.doc_of(uri)]
         out = set(l0 for (n, fn, l0) in d.fixtures if n in names or fn in names)
         if with_yield:
-            out |= d.yield_lines
+            for n in names:
+                out |= d.own_yields.get(n, set())
         return out
 
 
